@@ -105,6 +105,14 @@ func dynName(v ssa.Value) string {
 			return "." + st.Field(x.Field).Name()
 		}
 	}
+	// a value the source names (x, cancel := f()): the name of that variable
+	if refs := v.Referrers(); refs != nil {
+		for _, r := range *refs {
+			if d, ok := r.(*ssa.DebugRef); ok && d.Object() != nil && !d.IsAddr {
+				return d.Object().Name()
+			}
+		}
+	}
 	return v.Name()
 }
 
@@ -333,8 +341,9 @@ func (ex *Executor) dispatchCall(st *State, fr *Frame, cc *ssa.CallCommon, fv Va
 	// external function without contract
 	if spec == nil {
 		if !ex.observed(name) {
-			ex.Assumed["external "+dname+" without contract: results havocked, tracked heap unchanged"] = true
+			ex.Assumed["external "+dname+" without contract: results havocked, memory reachable from pointer arguments (one level) havocked, rest of the tracked heap unchanged"] = true
 		}
+		ex.havocPointees(st, args)
 		return finish(ex.havocResults(st, fn.Signature, "ext."+fn.Name()))
 	}
 	res, ok := ex.applyContract(st, fr, spec, fn, fn.Signature, args, ins, name, ord)
@@ -342,6 +351,49 @@ func (ex *Executor) dispatchCall(st *State, fr *Frame, cc *ssa.CallCommon, fv Va
 		return false
 	}
 	return finish(res)
+}
+
+// havocPointees: an external callee may write through the pointers it is given (also when they travel inside an
+// interface value): local cells get a fresh value, pointed-to structs get fresh fields.
+func (ex *Executor) havocPointees(st *State, args []Val) {
+	for _, a := range args {
+		if a.T != nil {
+			if info, ok := ex.ifaceInfo[a.T.Key()]; ok {
+				a = info.payload
+			}
+		}
+		if a.Ty == nil {
+			continue
+		}
+		pt, ok := a.Ty.Underlying().(*types.Pointer)
+		if !ok {
+			continue
+		}
+		el := pt.Elem()
+		if isBigIntPtr(a.Ty) {
+			continue
+		}
+		if n, ok := el.(*types.Named); ok && n.Obj().Pkg() != nil && !inRepo(n.Obj().Pkg()) {
+			// objects of library types (sync.WaitGroup, net.Dialer, ...) are opaque to the contracts
+			continue
+		}
+		if _, isArr := el.Underlying().(*types.Array); isArr {
+			continue
+		}
+		ex.store(st, a, ex.freshValOfType(st, "extw", el))
+	}
+}
+
+// freshValOfType: like freshOfType, but builds composite values for structs
+func (ex *Executor) freshValOfType(st *State, label string, ty types.Type) Val {
+	if s := structOf(ty); s != nil && !isBigIntPtr(types.NewPointer(ty)) {
+		v := Val{Ty: ty}
+		for i := 0; i < s.NumFields(); i++ {
+			v.Fs = append(v.Fs, ex.freshValOfType(st, label+"."+s.Field(i).Name(), s.Field(i).Type()))
+		}
+		return v
+	}
+	return ex.freshOfType(st, label, ty)
 }
 
 func (ex *Executor) observeDepth() int {
